@@ -46,7 +46,9 @@ def check(run: Run) -> None:
     run.rule("C06.R6", "comprehension targets are shadowed during capture rewriting (all four forms)")
     ctx = TermCtx(m, max_depth=2, opaque={"lambda_build"})
     outer = m.find_func("resolve_syntatic_sugar", in_module=mod)
-    classes = [c for c in m.classes.values() if c.parent_func is outer and m.is_transformer(c)]
+    from ..lib import used_visitor
+
+    classes = [used_visitor(m, ctx, outer, True)]
     if len(classes) != 1:
         raise AnalysisError("resolve_syntatic_sugar no longer contains one transformer")
     cls = classes[0]
